@@ -87,7 +87,7 @@ Print Assumptions C29_bytes_aggregate_refused.
     line, inside the payload or inside the final CRLF, or empty) is reported unclean, with an error -- the
     connection must not be recycled *)
 Theorem C29_bytes_truncated_unclean : forall (B : nat) (t : N) (s : bytes) (k f : nat) (w : wstate),
-  (32 <= B)%nat -> (t = tBlobString \/ t = tVerbatim) -> (zlen s < two63)%Z -> unlimited w ->
+  (32 <= B)%nat -> (t = tBlobString \/ t = tVerbatim) -> (zlen s + 2 < two63)%Z -> unlimited w ->
   (k < List.length (enc (VBlob t s)))%nat ->
   unclean (fst (fst (runw B (stream_to (S f)) (firstn k (enc (VBlob t s))) w))).
 Proof. intros B t s k f w HB. now apply stream_counted_trunc. Qed.
